@@ -24,12 +24,12 @@ META = {
             'ocaml/drv_config.ml; harness/h_config.cpp, harness/h_install.cpp and this script (INI writing, capture, '
             'decompression and concatenation of rotated files).  The pattern mini-language (C12), Qt category rules '
             '(C15) and regular expressions are NOT modelled here in general: configurations are restricted to closed '
-            'menus (patterns made of literals and %{message} %{type} %{category}; rules = exact name or name+trailing '
+            'menus (patterns made of literals, %{message} %{type} %{category} and the conditional sections %{if-<type>}...%{endif}, incl. patterns in which no section applies to a message: an EMPTY record, never the raw text; rules = exact name or name+trailing '
             '"*", optional .debug/.info/.warning/.critical suffix; regular expressions = literal, ^literal, literal$) '
             'decided by few-line matchers of this model; the general languages belong to C12/C15/C16.  Modelled not '
             'verified: QSettings INI lexing and QVariant conversions (values are written quoted; boolean spellings are '
             'converted by the generator using Qt\'s rule), QDateTime rendering (time text passed in, virtual clock), '
-            'isatty (pipes and ptys both exercised), rotation/retention/compression of the file sink (C05-C08: the '
+            'isatty (pipes and ptys both exercised), the locale codec (QTextCodec: a share of the children select ISO-8859-1 with QTextCodec::setCodecForLocale; expected bytes are the UTF-16 text of the model mapped per code unit, above U+00FF to a question mark, and console and file are compared as bytes), rotation/retention/compression of the file sink (C05-C08: the '
             'check concatenates the rotated files, gunzips, and accepts a record-aligned suffix when retention '
             'trimmed), asynchronous hand-off (C03/C04: async runs drain through exec()+quit or resetOwnThread with a '
             'live QCoreApplication), syslog (the sink is configured but cannot be captured offline: only its presence '
@@ -801,7 +801,7 @@ def replay(path):
     finally:
         shutil.rmtree(work, ignore_errors=True)
     print('case           ', json.dumps(describe(c, texts), ensure_ascii=False))
-    print('implementation ', json.dumps(small(o), ensure_ascii=False))
+    print('implementation ', json.dumps(small(o, c.get('codec', 'utf8')), ensure_ascii=False))
     _, m, _ = vlib.run_lines(model, [line], ['ini' if c['front'] == 'ini' else 'oneline'])
     f = m[0].split()
     print('model          ', json.dumps({'handlers': f[0], 'own_thread': f[1], 'stdout': unhx16(f[2]), 'stderr': unhx16(f[3]), 'log_records': unhx16(f[4])}, ensure_ascii=False))
